@@ -19,14 +19,6 @@ def jouleW : UnitV Rat := ⟨UExpr.sym "J", 1, 0, dEnergy, true⟩
 def cteCallW (re : Bool) (depth : Nat) : EquivCall Rat :=
   { convUnit := .ok jouleW, name := "thermal", selfCoeff := 100000000, depth := depth, reenters := re }
 
-/-- with the RE-ENTRANT post-multiplication (unyt before fix db741b8) the call never returns: the
-    instance of `reentrant_equivalence_diverges` on the regenerated table, budget 7 -/
-theorem convert_to_equivalent_reentrant_counterexample :
-    let r := runSteps (convertToEquivalentSteps liveFlagsW Generated.liveNumpy Generated.liveRules [] [] []
-        Generated.equivalences ⟨kCmPerA, ⟨.f, 8⟩, true⟩ (cteCallW true 7))
-    r.err? = some .RuntimeError ∧ r.effects.length = 8 := by
-  decide +kernel
-
 /-- with the post-multiplication on the raw buffer (the regenerated flag of the current source) the
     same call returns and has relabelled the array to joule, name cleared -/
 theorem convert_to_equivalent_raw_returns :
